@@ -70,6 +70,20 @@ pub open spec fn supported_versions_post(i: Seq<u8>, ext_len: u16, r: IResult<&[
             Err(e) => r == Err::<(&[u8], TlsExtension), Err<Error<&[u8]>>>(e),
         } } }
 }
+// named-group list helper (iterator adapters): ASSUMED with exactly the contract Kani leaf_named_groups checks
+pub open spec fn groups_post(i: Seq<u8>, r: IResult<&[u8], Vec<NamedGroup>>) -> bool {
+    if i.len() % 2 == 1 { r is Err && r->Err_0 is Error }
+    else { match r { Ok((rem, v)) => rem@.len() == 0 && v@.len() == i.len() / 2 && (forall|k: int| 0 <= k < i.len() / 2 ==> (#[trigger] v@[k]).0 as int == be16s(i, 2 * k)), Err(_) => false } }
+}
+// supported_groups / elliptic_curves (RFC 8422 5.1.1): u16 list length, the group list on exactly that window
+pub open spec fn curves_post(i: Seq<u8>, r: IResult<&[u8], TlsExtension>) -> bool {
+    if i.len() < 2 || i.len() < 2 + be16s(i, 0) { is_incomplete(r) }
+    else { let l = be16s(i, 0);
+        exists|inner: IResult<&[u8], Vec<NamedGroup>>| #[trigger] groups_post(i.subrange(2, 2 + l), inner) && match inner {
+            Ok((_, g)) => (match r { Ok((rem, TlsExtension::EllipticCurves(v))) => v == g && rem@ =~= i.subrange(2 + l, i.len() as int), _ => false }),
+            Err(e) => r == Err::<(&[u8], TlsExtension), Err<Error<&[u8]>>>(e),
+        } }
+}
 // encrypted_server_name (draft-ietf-tls-esni): cipher suite u16, named group u16, key_share<u16>, record_digest<u16>, encrypted_sni<u16>
 pub open spec fn fld16_ok(i: Seq<u8>, o: int) -> bool { 0 <= o && i.len() >= o + 2 && i.len() >= o + 2 + be16s(i, o) }
 pub open spec fn fld16_next(i: Seq<u8>, o: int) -> int { o + 2 + be16s(i, o) }
@@ -187,6 +201,29 @@ UNIT = {
          "splices": [{"at_start": True, "text": "    let ghost i0 = i@;\n    proof { reveal_with_fuel(be_val, 3); }"},
                      {"after": r"let \(i, _\) = be_u8\(i\)\?;", "text": "    proof { assert(i@ =~= i0.subrange(1, i0.len() as int)); }"},
                      {"after": r"let \(i, l\) = [^;]*;", "text": "    proof { let n = ext_len as int - 1; assert(i@ =~= i0.subrange(1 + n, i0.len() as int)); }"}]},
+        {"file": "src/tls_ec.rs", "kind": "fn", "name": "parse_named_groups", "external_body": True, "contract": "    ensures groups_post(i@, r),"},
+        {"file": F_EXT, "kind": "fn", "name": "parse_tls_extension_elliptic_curves_content", "contract": "    ensures curves_post(i@, r),",
+         "subst": [(r"fn parse_tls_extension_elliptic_curves_content\(i: &\[u8\]\) -> IResult<&\[u8\], TlsExtension>", "fn parse_tls_extension_elliptic_curves_content<'a>(i: &'a [u8]) -> IResult<&'a [u8], TlsExtension<'a>>"),
+                   # R10: constructor eta-expanded; R11: the returned expression bound to a local first
+                   (r"map\(parse_named_groups, TlsExtension::EllipticCurves\)", "map(parse_named_groups, |x: Vec<NamedGroup>| -> (e: TlsExtension<'a>) ensures e == TlsExtension::EllipticCurves(x) { TlsExtension::EllipticCurves(x) })"),
+                   (r"\n    map_parser\(", "\n    let ghost i2 = i;\n    let res = map_parser("),
+                   (r"\)\(i\)\n\}\s*$", """)(i);
+    proof {
+        reveal_with_fuel(be_val, 3);
+        let (r0, r1) = choose|r0: IResult<&[u8], u16>, r1: IResult<&[u8], &[u8]>| be_post(2, i2@, r0, |v: u16| v as int) && #[trigger] length_data_post(r0, r1) && match r1 {
+            Ok((rem, o1)) => exists|r2: IResult<&[u8], Vec<NamedGroup>>| #[trigger] groups_post(o1@, r2) && res == (match r2 { Ok((_, g)) => Ok::<(&[u8], TlsExtension), Err<Error<&[u8]>>>((rem, TlsExtension::EllipticCurves(g))), Err(e) => Err(e) }),
+            Err(e) => res == Err::<(&[u8], TlsExtension), Err<Error<&[u8]>>>(e) };
+        if r1 is Ok {
+            let rem = r1->Ok_0.0; let o1 = r1->Ok_0.1; let l = be16s(i2@, 0);
+            assert(r0 is Ok && r0->Ok_0.1 as int == l);
+            assert(o1@ =~= i2@.subrange(2, 2 + l));
+            assert(rem@ =~= i2@.subrange(2 + l, i2@.len() as int));
+            let r2 = choose|r2: IResult<&[u8], Vec<NamedGroup>>| #[trigger] groups_post(o1@, r2) && res == (match r2 { Ok((_, g)) => Ok::<(&[u8], TlsExtension), Err<Error<&[u8]>>>((rem, TlsExtension::EllipticCurves(g))), Err(e) => Err(e) });
+            assert(groups_post(i2@.subrange(2, 2 + l), r2));
+        }
+    }
+    res
+}""")]},
         empty("parse_tls_extension_encrypt_then_mac_content", "EncryptThenMac"),
         empty("parse_tls_extension_extended_master_secret_content", "ExtendedMasterSecret"),
         empty("parse_tls_extension_post_handshake_auth_content", "PostHandshakeAuth"),
